@@ -5,7 +5,7 @@ import random
 from fractions import Fraction
 
 from vf import import_desper
-from vf.core import Res, tup
+from vf.core import Res, tup, HarnessError
 
 ID = 'C19'
 LEVEL = 'exploration'
@@ -74,8 +74,10 @@ def gen_twin(rng, tier):
         if k < 0.15:
             ops.append(['create', e, rng.sample(range(ncls),
                                                 rng.randint(0, 2))])
-        elif k < 0.38:
+        elif k < 0.34:
             ops.append(['add', e, rng.randrange(ncls), form, ctl])
+        elif k < 0.38:
+            ops.append(['readd_same', e, rng.randrange(ncls), form, ctl])
         elif k < 0.5:
             ops.append(['remove', e, rng.randrange(ncls), form, ctl])
         elif k < 0.58:
@@ -139,7 +141,8 @@ def gen_cases(tier, seed):
             yield {'mode': 'onupdate', 'listeners': rng.randint(0, 4),
                    'dts': [rng.choice([0, 1, 0.5, 'frac', 'obj', -1, 'none'])
                            for _ in range(rng.randint(1, 5))],
-                   'remove_at': rng.choice([None, 1, 2])}
+                   'remove_at': rng.choice([None, 1, 2]),
+                   'raise_at': rng.choice([None, None, 0, 1])}
 
 
 def run_case(case):
@@ -275,6 +278,18 @@ def run_twin(case):
                     nontrivial = True
                 ra = worlds['A'].add_component(e, c['A'])
                 rb = call_b('add_component', e, op[3], op[4], c['B'])
+            elif name == 'readd_same':
+                # add_component with the component the entity already owns
+                e = ids[op[1]]
+                ca = worlds['A'].get_component(e, classes[op[2]])
+                cb = worlds['B'].get_component(e, classes[op[2]])
+                if ca is None or cb is None:
+                    res.stats['ops_skipped'] += 1
+                    continue
+                res.tags['form'].add('readd_same/' + op[3])
+                ra = worlds['A'].add_component(e, ca)
+                rb = call_b('add_component', e, op[3], op[4], cb)
+                nontrivial = True
             elif name == 'remove':
                 e = ids[op[1]]
                 if e in state['pending']:
@@ -298,8 +313,8 @@ def run_twin(case):
                 rb = call_b('get_components', e, op[2], op[3])
             elif name == 'delete':
                 e = ids[op[1]]
-                if not worlds['A'].entity_exists(e) \
-                        and e not in state['pending']:
+                if not worlds['A'].get_components(e):
+                    # precondition of delete_entity: the entity exists
                     res.stats['ops_skipped'] += 1
                     continue
                 ra = worlds['A'].delete_entity(e)
@@ -503,6 +518,36 @@ def run_proto(case):
                         sources=case['types'][i]['sources'],
                         prefix=eff_prefix)
                 return res
+    # ---- a second prototype class over the SAME component types, with its
+    # own prefix and sources, iterated afterwards: nothing may leak over
+    other_ns = {'component_types': tuple(comp_types), 'init_prefix': 'other_',
+                'init_methods': {}}
+    for i, cls in enumerate(comp_types):
+        if i % 2 == 0:
+            other_ns[f'other_{cls.__name__}'] = (
+                lambda self, t, _b=stamp('other', i): _b(t))
+    Other = type('OtherProto', (desper.Prototype,), other_ns)
+    try:
+        built = list(Other())
+    except Exception as ex:
+        res.div(2, 'iteration-raised', f'second prototype: '
+                f'{type(ex).__name__}: {ex}', 'components', repr(ex))
+        return res
+    for i, c in enumerate(built):
+        res.stats['prototype_components_checked'] += 1
+        name = comp_types[i].__name__
+        method = other_ns.get(f'other_{name}')
+        if method is not None:
+            probe = method(None, comp_types[i])
+            want = (probe.source, probe.made_for)
+        else:
+            want = ('default', None)
+        got = (getattr(c, 'source', 'default'), getattr(c, 'made_for', None))
+        if type(c) is not comp_types[i] or got != want:
+            res.div(2, 'prototype-source', 'a second prototype over the same '
+                    f'types (prefix other_) built component {i} from the '
+                    'wrong source', list(want), list(got))
+            return res
     if any(a is b for a, b in zip(*rounds)):
         res.div(1, 'prototype-not-fresh', 'iterating a prototype twice '
                 'yielded the same instance', 'new components', 'reused')
@@ -520,10 +565,16 @@ def run_onupdate(case):
     res = Res()
     log = []
 
+    fault = {'armed': False, 'obj': None}
+
     @desper.event_handler('on_update')
     class L:
         def on_update(self, dt):
             log.append((self.uid, dt))
+            if fault['armed']:
+                fault['armed'] = False
+                fault['obj'] = HarnessError('listener failed')
+                raise fault['obj']
 
     w = desper.World()
     w.add_processor(desper.OnUpdateProcessor())
@@ -541,6 +592,23 @@ def run_onupdate(case):
             w.remove_component(ents[alive[0]][0], L)
             alive.pop(0)
         del log[:]
+        if case.get('raise_at') == at and alive:
+            # one listener fails during this frame: the exception reaches
+            # the caller, and later frames are relayed as usual
+            fault['armed'] = True
+            try:
+                w.process(dt)
+                got_exc = None
+            except HarnessError as ex:
+                got_exc = ex
+            fault['armed'] = False
+            res.stats['onupdate_faults'] += 1
+            if got_exc is not fault['obj'] or got_exc is None:
+                res.div(at, 'fault-not-propagated', 'an on_update listener '
+                        'raised but process() did not propagate it',
+                        repr(fault['obj']), repr(got_exc))
+                break
+            continue
         try:
             w.process(dt)
         except Exception as ex:
